@@ -127,6 +127,10 @@ def cases(tier, seed):
     # worlds that are not small: many layers, -j larger than their number
     yield ['bigworld', 12, 6, [2, 5, 20]]
     yield ['bigworld', 3, 60, [2, 7]]
+    # a layer whose output is thousands of lines long, as last / first / only
+    # long layer
+    for pos in (0, 1, 2):
+        yield ['longoutput', pos, 4000]
     # layer names that are not plain identifiers, in children (shared with C03)
     for pair in (['a.b', 'a_b'], ['x[y]', 'p+q'], ['a|b', 'ab'], ['vtw.tests:DB', 'xvtw.tests:DB']):
         for mode in ('j2', 'j3_layer'):
@@ -628,6 +632,17 @@ def run_case(case):
         viol = [{'clause': c, 'sig': s, 'detail': d} for c, s, d in vs]
         return {'evals': evals, 'nontrivial': evals, 'violations': viol, 'outcome': 'realorder', 'nogate': True,
                 'counters': {'real_process_runs': evals}}
+    if case[0] == 'longoutput':
+        pos, nlines = case[1], case[2]
+        layers = [{'n': n, 'b': [], 'k': 'c', 'h': list(worlds.HOOKS_SD)} for n in 'ABC']
+        tests = []
+        for i, n in enumerate('ABC'):
+            w = [['o', ''.join('TOK%s%05d line\n' % (n, k) for k in range(nlines if i == pos else 3)), False]]
+            tests.append({'n': 'p' + n, 'l': n, 's': 'pass', 'w': w})
+            tests.append({'n': 'q' + n, 'l': n, 's': 'fail' if n == 'B' else 'pass'})
+        evals, vs = compare_with_sequential({'layers': layers, 'tests': tests}, 'layer #%d prints %d lines' % (pos, nlines), Ns=(2, 3), vss=([], ['-vv']))
+        viol = [{'clause': c, 'sig': sg, 'detail': d[:1500]} for c, sg, d in vs[:10]]
+        return {'evals': evals, 'nontrivial': evals, 'violations': viol, 'outcome': 'longoutput'}
     if case[0] == 'bigworld':
         spec = ow.big_spec(nlayers=case[1], ntests=case[2])
         evals, vs = compare_with_sequential(spec, 'big world %dx%d' % (case[1], case[2]), Ns=case[3], vss=([], ['-vv']))
